@@ -523,6 +523,8 @@ func newTarget(strict bool) *target {
 	var opts []state.MaterializerOption
 	if strict {
 		opts = append(opts, state.WithStrictSchema())
+		// hook options handed an unset (nil) callback, as a config struct with optional hooks does
+		opts = append(opts, state.WithOnError(nil), state.WithOnReset(nil), state.WithOnSnapshot(nil))
 	}
 	t.mat = state.NewMaterializer(opts...)
 	t.users = state.NewTypedCollection[Entity](state.NewMemoryStore[Entity]())
